@@ -86,12 +86,42 @@ def main():
                               "  let '(num, den, e) := c in match eval_unit tab num den, e with PMixed, _ => true | _, PMixed => true | a, b => pres_eqb a b end.\n")
     for k in range(0, len(items), sh):
         files[f"Run_parse_{k // sh}"] = hdr + f"Definition cases : list (list (str * Z) * option (list (str * Z)) * pres) := {clist(items[k:k + sh])}.\nDefinition mm := Eval vm_compute in mismatches case_ok cases.\nPrint mm.\nLemma run_agrees : mm = [].\nProof. reflexivity. Qed.\n"
+    # ---------------- the whole pipeline in the kernel: characters -> scanner -> LALR driver -> tree -> terms -> unit (Model/Lex.v, LR.v,
+    # TextParse.v, Parse.v on the regenerated tables) against Unit.parse of the same text
+    import lexgen
+    try:
+        pdefs = lexgen.parser_defs()
+        titems = []
+        pool_texts = [(text, x) for (num, den, text), x in zip(structured, r[:nstruct])]
+        pool_texts += [(cs["s"], x) for cs, x in zip(cases[nstruct:], r[nstruct:]) if cs["op"] == "parse_unit" and len(cs["s"]) <= 80]
+        seen_t = set()
+        for text, x in pool_texts:
+            if text in seen_t or re.search(r"[0-9⁰¹²³⁴-⁹]{300,}", text): continue
+            seen_t.add(text)
+            if "err" in x:
+                if x["err"] not in ("KeyError", "ParseError"): continue
+                exp = "XKeyError" if x["err"] == "KeyError" else "XParseError"
+            elif not C13.exact(x["u"]): exp = "XOutside"
+            else: exp = f"(XUnit {cunit3(x['u'])})"
+            titems.append(f"({C13.cstr(text)}, {exp})")
+        thdr = (C13.PHEADER + pdefs + td + "Inductive expected := XUnit (u : unit3) | XKeyError | XParseError | XOutside.\n"
+                "Definition text_case_ok (c : str * expected) : bool :=\n"
+                "  match unit_parse_text NM tab lex_order lex_ignore lr_rules rule_infos filtered lr_terminals end_sym T_unit (fst c), snd c with\n"
+                "  | TUnit (POk u), XUnit v => unit3_eqb u v\n  | TUnit PKeyError, XKeyError => true\n  | TUnit PFrac, XParseError => true\n"
+                "  | TSyntaxError, XParseError => true\n  | TUnit PMixed, _ => true\n  | _, XOutside => true\n  | _, _ => false end.\n")
+        for k in range(0, len(titems), sh):
+            files[f"Run_textparse_{k // sh}"] = thdr + f"Definition cases : list (str * expected) := {clist(titems[k:k + sh])}.\nDefinition mm := Eval vm_compute in mismatches text_case_ok cases.\nPrint mm.\nLemma run_agrees : mm = [].\nProof. reflexivity. Qed.\n"
+        c.cov["text_pipeline_cases"] = len(titems)
+    except lexgen.Untranslatable as ex:
+        c.oblige("lexgen.parser_defs (translator of the shipped parser for the text-level pipeline)", False, f"untranslatable: {ex}")
     out = c.run_coq(files)
     for n, (ok, log) in sorted(out.items()):
         mm = re.search(r"mm =\s*(\[[^\]]*\])", log, re.S)
         bad = [int(t) for t in re.findall(r"\d+", mm.group(1))] if mm else None
-        c.oblige(f"{n}.run_agrees (transformer model = Unit.parse on structured term sequences: the unit, or KeyError)", ok and bad == [], f"mismatching {bad[:6] if bad else ''} {log[-400:]}")
-        if bad:
+        what = ("character-level pipeline model (scanner, LALR driver, transformer, evaluation) = Unit.parse on the texts: the unit, KeyError or ParseError" if "textparse" in n
+                else "transformer model = Unit.parse on structured term sequences: the unit, or KeyError")
+        c.oblige(f"{n}.run_agrees ({what})", ok and bad == [], f"mismatching {bad[:6] if bad else ''} {log[-400:]}")
+        if bad and "textparse" not in n:
             base = int(n.split("_")[-1]) * sh
             for j in bad[:3]:
                 c.cov.setdefault("model_impl_mismatches", []).append({"text": structured[base + j][2], "impl": r[base + j]})
